@@ -22,32 +22,38 @@ impl Lcg {
     }
 }
 
-fn gen_map(r: &mut Lcg, n_objects: usize, mode: u8) -> String {
-    let beat_len = r.pick(&[300, 400, 500, 800]);
-    let mult = r.pick(&["1", "1.4", "2.2"]);
-    let tick = r.pick(&[1, 2, 4]);
+fn gen_map(r: &mut Lcg, n_objects: usize, mode: u8, boundary: bool) -> String {
+    // boundary maps: 0.125 px / ms (8 ms per px) and tick rates that put events exactly 80 / 100 / 200 ms apart; fruits exactly
+    // 1000 ms apart; positions whose hard-rock offset lands exactly on the playfield edge
+    let beat_len = if boundary { 800 } else { r.pick(&[300, 400, 500, 800]) };
+    let mult = if boundary { "1" } else { r.pick(&["1", "1.4", "2.2"]) };
+    let tick = if boundary { r.pick(&[10, 8, 5, 4, 1]) } else { r.pick(&[1, 2, 4]) };
     let mut s = format!("osu file format v14\n\n[General]\nMode: {mode}\n\n[Difficulty]\nHPDrainRate:5\nCircleSize:{}\nOverallDifficulty:7\nApproachRate:9\nSliderMultiplier:{mult}\nSliderTickRate:{tick}\n\n[TimingPoints]\n0,{beat_len},4,2,0,100,1,0\n\n[HitObjects]\n", r.n(8));
     let mut t: i64 = 400 + r.n(300) as i64;
     let mut px: i64 = r.n(513) as i64;
     for _ in 0..n_objects {
-        t += r.pick(&[60i64, 120, 180, 240, 400, 700, 1100]);
+        t += if boundary { r.pick(&[100i64, 200, 999, 1000, 1001, 300]) } else { r.pick(&[60i64, 120, 180, 240, 400, 700, 1100]) };
         match r.n(10) {
             0..=1 => {}                                                  // same x: the random offset branch under HR
+            2..=4 if boundary => px = (px + r.pick(&[-64i64, 64, -32, 32])).clamp(0, 512),
             2..=4 => px = (px + r.pick(&[-60i64, -25, -8, 8, 25, 60])).clamp(0, 512),      // near: |dx| < dt/3 or not
+            _ if boundary => px = r.pick(&[0i64, 32, 64, 256, 448, 480, 512]),
             _ => px = r.n(513) as i64,
         }
         match r.n(10) {
             0..=5 => { let _ = writeln!(s, "{px},192,{t},1,0"); }
             6..=8 => {
-                let len = r.pick(&[30i64, 60, 100, 150, 220, 400, 700]);
+                // boundary lengths in half pixels: 116 ms (head -> last tick 80 ms), 117, 136 (100), 137, 80, 236 (200), 436 (400), long
+                let len2 = if boundary { r.pick(&[29i64, 30, 34, 35, 20, 59, 109, 200, 400, 800]) } else { 2 * r.pick(&[30i64, 60, 100, 150, 220, 400, 700]) };
+                let len = len2 / 2 + len2 % 2;          // the control point at the next whole pixel, the expected length exact
                 let ex = if px + len <= 512 { px + len } else { px - len };
                 let slides = r.pick(&[1u32, 1, 2, 3]);
-                let _ = writeln!(s, "{px},192,{t},2,0,L|{ex}:192,{slides},{len}");
+                let _ = writeln!(s, "{px},192,{t},2,0,L|{ex}:192,{slides},{}", len2 as f64 / 2.0);
                 // the next object starts after (or, sometimes, inside) the stream
                 t += r.pick(&[0i64, 200, 900]);
             }
             _ => {
-                let dur = r.pick(&[0i64, 40, 100, 101, 350, 800, 1601, 3000]);
+                let dur = if boundary { r.pick(&[100i64, 200, 400, 99, 201, 1600]) } else { r.pick(&[0i64, 40, 100, 101, 350, 800, 1601, 3000]) };
                 let _ = writeln!(s, "256,192,{t},12,0,{}", t + dur);
                 t += dur;
             }
@@ -154,7 +160,7 @@ pub fn record_main(args: &[String]) -> i32 {
     let n_random = if tier == "quick" { 40 } else { 400 };
     for i in 0..n_random {
         let n = [6usize, 14, 30, 60][i % 4];
-        maps.push((format!("random {i}"), gen_map(&mut r, n, if i % 3 == 0 { 2 } else { 0 })));
+        maps.push((format!("random {i}"), gen_map(&mut r, n, if i % 3 == 0 { 2 } else { 0 }, i % 5 >= 3)));
     }
     let mut out: Vec<Value> = Vec::new();
     let (mut sessions, mut skipped, mut panics) = (0u64, 0u64, Vec::<Value>::new());
